@@ -469,9 +469,9 @@ Proof.
   unfold norm_extras. cbn [filter]. destruct (memc 95 x), (memc 46 x), (memc 45 x); cbn; tauto.
 Qed.
 
-Definition class_good (e : str) (code : Z) : Prop :=
-  exists t cs, cat_re false e code = Some t /\ atom_ok cs t /\
-               forall ct c, sem_cset ct cs c = cat_sem ct false e code c.
+Definition class_good (out : bool) (e : str) (code : Z) : Prop :=
+  exists t cs, cat_re out e code = Some t /\ atom_ok cs t /\
+               forall ct c, sem_cset ct cs c = cat_sem ct out e code c.
 
 Local Arguments Z.eqb : simpl nomatch.
 Local Arguments Z.leb : simpl nomatch.
@@ -518,27 +518,27 @@ Proof.
   intro E. rewrite E in Hin. destruct Hin.
 Qed.
 
-Lemma punct_good e : In e extras8 -> class_good e cP.
+Lemma punct_good out e : In e extras8 -> class_good out e cP.
 Proof.
   intro He. exists (escaped_bracket false (punct_chars e)), (CBr false (map BChar (bracket_order (punct_chars e)))).
   split; [reflexivity|]. split; [apply basic_atom, bracket_atom, punct_chars_nonempty; exact He|].
   intros ct c. cbn [sem_cset xorb]. rewrite br_chars_sem, (memc_ext _ _ c (bracket_order_In (punct_chars e))), punct_set_sem.
-  change (cat_sem ct false e cP c) with (punct_sem e c). destruct (punct_sem e c); reflexivity.
+  change (cat_sem ct out e cP c) with (punct_sem e c). destruct (punct_sem e c); reflexivity.
 Qed.
 
-Theorem class_codes_good :
-  Forall (fun e => Forall (fun code => cat_re false e code = None \/ class_good e code) all_codes) extras8.
+Theorem class_codes_good out :
+  Forall (fun e => Forall (fun code => cat_re out e code = None \/ class_good out e code) all_codes) extras8.
 Proof.
-  unfold extras8, all_codes, class_codes. cbn [app].
+  destruct out; unfold extras8, all_codes, class_codes; cbn [app];
   repeat (apply Forall_cons || apply Forall_nil);
     first [ left; vm_compute; reflexivity
           | right; apply punct_good; cbn; tauto
           | right; class_auto ].
 Qed.
 
-Lemma class_lookup e code t : In e extras8 -> In code all_codes -> cat_re false e code = Some t -> class_good e code.
+Lemma class_lookup out e code t : In e extras8 -> In code all_codes -> cat_re out e code = Some t -> class_good out e code.
 Proof.
-  intros He Hc Ht. pose proof (proj1 (Forall_forall _ _) class_codes_good e He) as H1.
+  intros He Hc Ht. pose proof (proj1 (Forall_forall _ _) (class_codes_good out) e He) as H1.
   destruct (proj1 (Forall_forall _ _) H1 code Hc) as [Hn|Hg]; [congruence|exact Hg].
 Qed.
 
@@ -561,12 +561,15 @@ Lemma parse_seq_ge f f' top s r : parse_seq f top s = Some r -> (f <= f')%nat ->
 Proof. intros H Hle. replace f' with (f + (f' - f))%nat by lia. apply parse_seq_mono. exact H. Qed.
 
 (* how the text of one fragment parses, and what its items accept *)
-Definition part_good (e : str) (top : bool) (f : frag) (part : str) (its : list item) (k : nat) : Prop :=
+Definition part_good (out : bool) (e : str) (top : bool) (f : frag) (part : str) (its : list item) (k : nat) : Prop :=
   (forall fuel rest irest rend, starts_quant rest = false -> parse_seq fuel top rest = Some (irest, rend) ->
      parse_seq (k + fuel) top (part ++ rest) = Some (its ++ irest, rend)) /\
   (k <= List.length part)%nat /\
   (forall rest, starts_quant rest = false -> starts_quant (part ++ rest) = false) /\
-  (forall ct s, frag_matches ct false e f s <-> lang ct its s).
+  (forall ct s, frag_matches ct out e f s <-> lang ct its s).
+
+Section WithOut.
+Variable out : bool.   (* false: the expressions as used while extracting; true: the portable re-rendering *)
 
 Lemma quant_okb_ok m M : quant_okb m M = true -> quant_ok m M.
 Proof.
@@ -577,8 +580,8 @@ Qed.
 (* a single quantified atom *)
 Lemma single_part e top f cs regex (p : Z -> bool) :
   atom_ok cs regex -> quant_ok (f_min f) (f_max f) ->
-  (forall ct s, frag_matches ct false e f s <-> forallb (sem_cset ct cs) s = true /\ count_ok (f_min f) (f_max f) (List.length s)) ->
-  part_good e top f (quantify regex (f_min f) (f_max f)) (quant_items cs regex (f_min f) (f_max f))
+  (forall ct s, frag_matches ct out e f s <-> forallb (sem_cset ct cs) s = true /\ count_ok (f_min f) (f_max f) (List.length s)) ->
+  part_good out e top f (quantify regex (f_min f) (f_max f)) (quant_items cs regex (f_min f) (f_max f))
             (List.length (quant_items cs regex (f_min f) (f_max f))).
 Proof.
   intros Hok Hq Hsem. split; [|split; [|split]].
@@ -635,8 +638,8 @@ Qed.
 Lemma forallb_ext_local {T} (p q : T -> bool) l : (forall x, p x = q x) -> forallb p l = forallb q l.
 Proof. intro H. induction l as [|x l IH]; cbn [forallb]; [reflexivity|]. rewrite H, IH. reflexivity. Qed.
 
-Lemma pred_sem_iff ct e f cs p : atom_pred ct false e (f_atom f) = Some p -> (forall x, sem_cset ct cs x = p x) ->
-  forall s, frag_matches ct false e f s <-> forallb (sem_cset ct cs) s = true /\ count_ok (f_min f) (f_max f) (List.length s).
+Lemma pred_sem_iff ct e f cs p : atom_pred ct out e (f_atom f) = Some p -> (forall x, sem_cset ct cs x = p x) ->
+  forall s, frag_matches ct out e f s <-> forallb (sem_cset ct cs) s = true /\ count_ok (f_min f) (f_max f) (List.length s).
 Proof.
   intros Hp Hx s. unfold frag_matches. rewrite Hp, (forallb_ext_local _ _ s Hx). reflexivity.
 Qed.
@@ -650,7 +653,7 @@ Proof.
 Qed.
 
 Theorem fragment_part e top full f part : In e extras8 ->
-  frag_renderable e f = true -> fragment2re false full e false f = Ok part -> exists its k, part_good e top f part its k.
+  frag_renderable e f = true -> fragment2re out full e false f = Ok part -> exists its k, part_good out e top f part its k.
 Proof.
   intro He. unfold frag_renderable, fragment2re. destruct f as [a m M]. cbn [f_atom f_min f_max andb negb]. intros Hr Hp.
   destruct a as [s|c|code|cs]; cbn [atom_text bind] in Hp.
@@ -696,12 +699,12 @@ Proof.
       replace (Z.eqb c 46) with false by (symmetry; apply Z.eqb_neq; exact Hne). cbn [orb]. apply Z.eqb_sym.
   - (* a category *)
     apply andb_true_iff in Hr as [Hc Hq]. apply andb_true_iff in Hc as [Hc Hsome]. apply memc_In in Hc.
-    destruct (cat_re false e code) as [t0|] eqn:Ht0; [|discriminate].
-    destruct (class_lookup e code t0 He Hc Ht0) as (t & cs & Ht & Hok & Hsem).
+    destruct (cat_re out e code) as [t0|] eqn:Ht0; [|discriminate].
+    destruct (class_lookup out e code t0 He Hc Ht0) as (t & cs & Ht & Hok & Hsem).
     rewrite Ht0 in Ht. injection Ht as <-. injection Hp as <-. exists (quant_items cs t0 m M), (List.length (quant_items cs t0 m M)).
     apply (single_part e top {| f_atom := AClass code; f_min := m; f_max := M |} cs t0 (fun _ => true));
       [exact Hok|apply quant_okb_ok; exact Hq|].
-    intros ct s. apply (pred_sem_iff ct e {| f_atom := AClass code; f_min := m; f_max := M |} cs (cat_sem ct false e code)); [reflexivity|].
+    intros ct s. apply (pred_sem_iff ct e {| f_atom := AClass code; f_min := m; f_max := M |} cs (cat_sem ct out e code)); [reflexivity|].
     intro x. apply Hsem.
   - (* a bracket over a set of characters *)
     apply andb_true_iff in Hr as [Hc Hq]. injection Hp as <-.
@@ -748,21 +751,21 @@ Qed.
 
 (* with capture groups: a category fragment is wrapped in ( ) *)
 Theorem tagged_fragment_part e full tagged f part : In e extras8 ->
-  frag_renderable e f = true -> fragment2re false full e tagged f = Ok part -> exists its k, part_good e true f part its k.
+  frag_renderable e f = true -> fragment2re out full e tagged f = Ok part -> exists its k, part_good out e true f part its k.
 Proof.
   intros He Hr Hp. destruct (tagged && negb (f_fixed f)) eqn:Et.
   - (* wrapped *)
     apply andb_true_iff in Et as [-> Hnf]. apply negb_true_iff in Hnf.
-    unfold fragment2re in Hp. destruct (atom_text false full e (f_atom f)) as [regex|err] eqn:Ea; cbn [bind] in Hp; [|discriminate].
+    unfold fragment2re in Hp. destruct (atom_text out full e (f_atom f)) as [regex|err] eqn:Ea; cbn [bind] in Hp; [|discriminate].
     rewrite Hnf in Hp. cbn [negb andb] in Hp. injection Hp as <-.
-    assert (Hun : fragment2re false full e false f = Ok (quantify regex (f_min f) (f_max f))).
+    assert (Hun : fragment2re out full e false f = Ok (quantify regex (f_min f) (f_max f))).
     { unfold fragment2re. rewrite Ea. cbn [bind andb]. reflexivity. }
     destruct (fragment_part e false full f _ He Hr Hun) as (its & k & Hparse & Hk & Hhead & Hsem).
     assert (Hatom : exists cs, atom_ok cs regex).
     { unfold f_fixed in Hnf. destruct f as [a m M]. cbn [f_atom f_min f_max] in *. destruct a as [s|c|code|cs]; try discriminate.
       unfold frag_renderable in Hr. cbn [f_atom] in Hr. apply andb_true_iff in Hr as [Hc _]. apply andb_true_iff in Hc as [Hc _].
-      apply memc_In in Hc. cbn [atom_text] in Ea. destruct (cat_re false e code) as [t0|] eqn:Ht0; [|discriminate].
-      injection Ea as <-. destruct (class_lookup e code t0 He Hc Ht0) as (t & cs & Ht & Hok & _).
+      apply memc_In in Hc. cbn [atom_text] in Ea. destruct (cat_re out e code) as [t0|] eqn:Ht0; [|discriminate].
+      injection Ea as <-. destruct (class_lookup out e code t0 He Hc Ht0) as (t & cs & Ht & Hok & _).
       rewrite Ht0 in Ht. injection Ht as <-. exists cs. exact Hok. }
     destruct Hatom as [cs0 Hatom].
     unfold capture_group.
@@ -781,29 +784,29 @@ Proof.
     + intros rest _. reflexivity.
     + exact Hsem.
   - (* not wrapped *)
-    assert (Hun : fragment2re false full e false f = Ok part).
-    { unfold fragment2re in *. destruct (atom_text false full e (f_atom f)) as [regex|err]; cbn [bind] in *; [|discriminate].
+    assert (Hun : fragment2re out full e false f = Ok part).
+    { unfold fragment2re in *. destruct (atom_text out full e (f_atom f)) as [regex|err]; cbn [bind] in *; [|discriminate].
       rewrite Et in Hp. exact Hp. }
     exact (fragment_part e true full f part He Hr Hun).
 Qed.
 
 (* all the fragments of a pattern *)
 Lemma fragments_parts e full tagged : In e extras8 -> forall frags parts,
-  forallb (frag_renderable e) frags = true -> mapM (fragment2re false full e tagged) frags = Ok parts ->
+  forallb (frag_renderable e) frags = true -> mapM (fragment2re out full e tagged) frags = Ok parts ->
   exists its K,
     (forall fuel rest irest rend, starts_quant rest = false -> parse_seq fuel true rest = Some (irest, rend) ->
        parse_seq (K + fuel) true (List.concat parts ++ rest) = Some (its ++ irest, rend)) /\
     (K <= List.length (List.concat parts))%nat /\
     (forall rest, starts_quant rest = false -> starts_quant (List.concat parts ++ rest) = false) /\
-    (forall ct s, matches_frags ct false e frags s <-> lang ct its s).
+    (forall ct s, matches_frags ct out e frags s <-> lang ct its s).
 Proof.
   intro He. induction frags as [|f frags IH]; intros parts Hr Hm; cbn [mapM forallb] in *.
   - injection Hm as <-. exists [], O. cbn [List.concat app Nat.add List.length].
     split; [intros; assumption|]. split; [lia|]. split; [intros; assumption|].
     intros ct s. split; intro H; inversion H; subst; constructor.
   - apply andb_true_iff in Hr as [Hr1 Hr2].
-    destruct (fragment2re false full e tagged f) as [p|err] eqn:Ep; cbn [bind] in Hm; [|discriminate].
-    destruct (mapM (fragment2re false full e tagged) frags) as [ps|err] eqn:Eps; cbn [bind] in Hm; [|discriminate].
+    destruct (fragment2re out full e tagged f) as [p|err] eqn:Ep; cbn [bind] in Hm; [|discriminate].
+    destruct (mapM (fragment2re out full e tagged) frags) as [ps|err] eqn:Eps; cbn [bind] in Hm; [|discriminate].
     injection Hm as <-. destruct (IH ps Hr2 eq_refl) as (its2 & K2 & Hp2 & Hk2 & Hh2 & Hs2).
     destruct (tagged_fragment_part e full tagged f p He Hr1 Ep) as (its1 & k1 & Hp1 & Hk1 & Hh1 & Hs1).
     exists (its1 ++ its2), (k1 + K2)%nat. cbn [List.concat]. split; [|split; [|split]].
@@ -831,12 +834,12 @@ Qed.
 Theorem rendered_text_matches ct e full stripped tagged frags text s :
   In e extras8 ->
   forallb (frag_renderable e) frags = true ->
-  vrle2re false full e stripped tagged frags = Ok text ->
-  matches_frags ct false e frags s ->
+  vrle2re out full e stripped tagged frags = Ok text ->
+  matches_frags ct out e frags s ->
   re_model_fullmatch ct text s = Some true.
 Proof.
   intros He Hr Hv Hm. unfold vrle2re in Hv.
-  destruct (mapM (fragment2re false full e tagged) frags) as [parts|err] eqn:Ep; cbn [bind] in Hv; [|discriminate].
+  destruct (mapM (fragment2re out full e tagged) frags) as [parts|err] eqn:Ep; cbn [bind] in Hv; [|discriminate].
   injection Hv as <-. destruct (fragments_parts e full tagged He frags parts Hr Ep) as (its & K & Hparse & HK & Hhead & Hsem).
   pose proof (proj1 (Hsem ct s) Hm) as Hlang.
   assert (Hend : forall f, parse_seq (S f) true [36] = Some ([], [])) by reflexivity.
@@ -870,12 +873,12 @@ Definition padded (stripped : bool) (its : list item) : list item :=
 
 Theorem rendered_text_parses e full stripped tagged frags text :
   In e extras8 -> forallb (frag_renderable e) frags = true ->
-  vrle2re false full e stripped tagged frags = Ok text ->
+  vrle2re out full e stripped tagged frags = Ok text ->
   exists its, parse_regex text = Some (padded stripped its) /\
-              forall ct s, matches_frags ct false e frags s <-> lang ct its s.
+              forall ct s, matches_frags ct out e frags s <-> lang ct its s.
 Proof.
   intros He Hr Hv. unfold vrle2re in Hv.
-  destruct (mapM (fragment2re false full e tagged) frags) as [parts|err] eqn:Ep; cbn [bind] in Hv; [|discriminate].
+  destruct (mapM (fragment2re out full e tagged) frags) as [parts|err] eqn:Ep; cbn [bind] in Hv; [|discriminate].
   injection Hv as <-. destruct (fragments_parts e full tagged He frags parts Hr Ep) as (its & K & Hparse & HK & Hhead & Hsem).
   exists its. split; [|exact Hsem].
   assert (Hend : forall f, parse_seq (S f) true [36] = Some ([], [])) by reflexivity.
@@ -900,8 +903,8 @@ Qed.
 (* EXACTNESS (not stripped): the model's reading of the text accepts exactly the strings the pattern matches *)
 Theorem rendered_text_exact ct e full tagged frags text s :
   In e extras8 -> forallb (frag_renderable e) frags = true ->
-  vrle2re false full e false tagged frags = Ok text ->
-  (re_model_fullmatch ct text s = Some true <-> matches_frags ct false e frags s).
+  vrle2re out full e false tagged frags = Ok text ->
+  (re_model_fullmatch ct text s = Some true <-> matches_frags ct out e frags s).
 Proof.
   intros He Hr Hv. destruct (rendered_text_parses e full false tagged frags text He Hr Hv) as (its & Hp & Hsem).
   unfold re_model_fullmatch. rewrite Hp. cbn [padded]. rewrite (Hsem ct s), <- match_items_spec. split; [intro H; injection H as ->; reflexivity|intros ->; reflexivity].
@@ -910,8 +913,8 @@ Qed.
 (* C13: the tagged and the untagged rendering of a pattern accept the same strings: tagging only adds groups *)
 Theorem tag_same_language ct e full frags t0 t1 s :
   In e extras8 -> forallb (frag_renderable e) frags = true ->
-  vrle2re false full e false false frags = Ok t0 ->
-  vrle2re false full e false true frags = Ok t1 ->
+  vrle2re out full e false false frags = Ok t0 ->
+  vrle2re out full e false true frags = Ok t1 ->
   re_model_fullmatch ct t0 s = re_model_fullmatch ct t1 s.
 Proof.
   intros He Hr H0 H1.
@@ -922,6 +925,8 @@ Proof.
   - apply match_items_spec, S0, S1, match_items_spec in E0. congruence.
   - apply match_items_spec, S1, S0, match_items_spec in E1. congruence.
 Qed.
+
+End WithOut.
 
 (* ------------------------------------------------------------------ G. one batch extraction, at the level of the text *)
 Lemma mapM_nth_pair {A B} (f : A -> res B) l ys x : mapM f l = Ok ys -> In x l -> exists y, In y ys /\ f x = Ok y.
@@ -977,4 +982,136 @@ Lemma fullmatch_match ct text s : re_model_fullmatch ct text s = Some true -> re
 Proof.
   unfold re_model_fullmatch, re_model_match. destruct (parse_regex text) as [items|]; [|discriminate].
   intro H. injection H as ->. reflexivity.
+Qed.
+
+(* ------------------------------------------------------------------ H. the portable / grep re-rendering (OutCats) *)
+(* The expressions RETURNED under the portable and grep dialects are rendered again with out = true, where
+   the digit class is written [0-9] instead of \d.  Their language is exactly matches_frags ct true
+   (rendered_text_exact true); it covers what the internal expression covers provided every character that
+   Python classes as a decimal digit is an ASCII digit - and not otherwise (portable_gap_refuted below, which
+   is the known finding c03-portable-digits / c13-portable-digits). *)
+Definition ascii_decimals (ct : chartab) (s : str) : Prop :=
+  forall c, In c s -> ct_decimal ct c = true -> is_09 c = true.
+
+Lemma cat_sem_portable ct e code c :
+  (ct_decimal ct c = true -> is_09 c = true) -> cat_sem ct false e code c = true -> cat_sem ct true e code c = true.
+Proof.
+  intro Hd. unfold cat_sem.
+  repeat match goal with
+         | |- context [if Z.eqb code ?k then _ else _] => destruct (Z.eqb code k); [solve [auto]|]
+         end.
+  auto.
+Qed.
+
+Lemma cat_sem_portable_inv ct e code c :
+  (is_09 c = true -> ct_decimal ct c = true) -> cat_sem ct true e code c = true -> cat_sem ct false e code c = true.
+Proof.
+  intro Hd. unfold cat_sem.
+  repeat match goal with
+         | |- context [if Z.eqb code ?k then _ else _] => destruct (Z.eqb code k); [solve [auto]|]
+         end.
+  auto.
+Qed.
+
+Lemma frag_matches_portable ct e f s :
+  frag_matches ct false e f s -> ascii_decimals ct s -> frag_matches ct true e f s.
+Proof.
+  unfold frag_matches. destruct (f_atom f) as [w|c|code|cs]; cbn [atom_pred]; try (intros H _; exact H).
+  - intros [H1 H2] Ha. split; [|exact H2]. rewrite forallb_forall in *. intros x Hx.
+    apply cat_sem_portable; [apply Ha; exact Hx|apply H1; exact Hx].
+Qed.
+
+Lemma matches_frags_portable ct e frags s :
+  matches_frags ct false e frags s -> ascii_decimals ct s -> matches_frags ct true e frags s.
+Proof.
+  intro H. induction H as [|f fs s1 s2 H1 _ IH]; intro Ha; [constructor|].
+  constructor.
+  - apply frag_matches_portable; [exact H1|]. intros c Hc. apply Ha, in_or_app. left. exact Hc.
+  - apply IH. intros c Hc. apply Ha, in_or_app. right. exact Hc.
+Qed.
+
+(* the portable expression matches everything the internal one does, on strings whose decimal digits are ASCII *)
+Theorem portable_text_matches ct e full stripped tagged frags text s :
+  In e extras8 -> forallb (frag_renderable e) frags = true ->
+  vrle2re true full e stripped tagged frags = Ok text ->
+  matches_frags ct false e frags s -> ascii_decimals ct s ->
+  re_model_fullmatch ct text s = Some true.
+Proof.
+  intros He Hr Hv Hm Ha. eapply (rendered_text_matches true); [exact He|exact Hr|exact Hv|].
+  apply matches_frags_portable; assumption.
+Qed.
+
+Lemma matches_frags_portable_inv ct e frags s :
+  (forall c, is_09 c = true -> ct_decimal ct c = true) ->
+  matches_frags ct true e frags s -> matches_frags ct false e frags s.
+Proof.
+  intros Hd Hm. induction Hm as [|f fs s1 s2 H1 _ IH]; [constructor|]. constructor; [|exact IH].
+  revert H1. unfold frag_matches. destruct (f_atom f) as [w|c|code|cs]; cbn [atom_pred]; try (intro H; exact H).
+  intros [H1 H2]. split; [|exact H2]. rewrite forallb_forall in *. intros x Hx.
+  apply cat_sem_portable_inv; [apply Hd|apply H1; exact Hx].
+Qed.
+
+(* ... and nothing the internal one does not, as long as the ASCII digits are decimal digits (table_ok) *)
+Theorem portable_text_within ct e full tagged frags text s :
+  In e extras8 -> forallb (frag_renderable e) frags = true ->
+  (forall c, is_09 c = true -> ct_decimal ct c = true) ->
+  vrle2re true full e false tagged frags = Ok text ->
+  re_model_fullmatch ct text s = Some true -> matches_frags ct false e frags s.
+Proof.
+  intros He Hr Hd Hv Hm. apply (rendered_text_exact true ct e full tagged frags text s He Hr Hv) in Hm.
+  apply matches_frags_portable_inv; assumption.
+Qed.
+
+(* Without the hypothesis the statement is false of the faithful model - and of the code: this witness is the
+   known finding c03-portable-digits / c13-portable-digits (two ARABIC-INDIC digits, U+0663 U+0664). *)
+Example portable_gap_refuted :
+  exists frags text s,
+    vrle2re true false [] false false frags = Ok text /\
+    forallb (frag_renderable []) frags = true /\
+    matches_frags py_chartab false [] frags s /\
+    re_model_fullmatch py_chartab text s = Some false.
+Proof.
+  exists [{| f_atom := AClass cD; f_min := 2; f_max := Some 2 |}]. eexists. exists [1635; 1636].
+  split; [vm_compute; reflexivity|]. split; [vm_compute; reflexivity|]. split; [|vm_compute; reflexivity].
+  change [1635; 1636] with ([1635; 1636] ++ []). constructor; [|constructor].
+  unfold frag_matches. cbn [atom_pred f_atom]. split; [vm_compute; reflexivity|]. cbn. lia.
+Qed.
+
+(* one batch extraction whose patterns are rendered again for output (what run_extractor does under the portable
+   and grep dialects): the returned texts still cover the working examples, and each still matches one of them,
+   when the examples' decimal digits are ASCII *)
+Theorem batch_portable_covers ct o e stripped gt ex merged rex prex :
+  batch_extract ct o e stripped gt ex = Ok (merged, rex) ->
+  table_ok ct -> 1 <= z_max_strings_in_group o ->
+  batch_oracle_okb ct o e stripped gt ex = true ->
+  batch_renderable ct o e stripped gt ex = true ->
+  mapM (vrle2re true (o_full_escape o) e stripped (o_tag o)) merged = Ok prex ->
+  (forall s, In s (ex_strings ex) -> ascii_decimals ct s) ->
+  forall s, In s (ex_strings ex) -> exists text, In text prex /\ re_model_fullmatch ct text s = Some true.
+Proof.
+  intros Hb Htab Hcap Horc Hren Hp Hasc s Hs.
+  destruct (batch_covers_checked ct o e stripped gt ex merged rex Hb Htab Hcap Horc s Hs) as [fs [Hin Hm]].
+  unfold batch_renderable in Hren. apply andb_true_iff in Hren as [He Hren]. apply mem_str_In in He.
+  rewrite Hb in Hren. rewrite forallb_forall in Hren.
+  destruct (mapM_nth_pair _ _ _ fs Hp Hin) as [text [Ht Hv]].
+  exists text. split; [exact Ht|].
+  eapply portable_text_matches; [exact He|apply Hren; exact Hin|exact Hv|exact Hm|apply Hasc; exact Hs].
+Qed.
+
+Theorem batch_portable_each_matches ct o e stripped gt ex merged rex prex :
+  batch_extract ct o e stripped gt ex = Ok (merged, rex) ->
+  table_ok ct -> 1 <= z_max_strings_in_group o ->
+  batch_oracle_okb ct o e stripped gt ex = true ->
+  batch_renderable ct o e stripped gt ex = true ->
+  mapM (vrle2re true (o_full_escape o) e stripped (o_tag o)) merged = Ok prex ->
+  (forall s, In s (ex_strings ex) -> ascii_decimals ct s) ->
+  forall text, In text prex -> exists s, In s (ex_strings ex) /\ re_model_fullmatch ct text s = Some true.
+Proof.
+  intros Hb Htab Hcap Horc Hren Hp Hasc text Ht.
+  destruct (mapM_In _ _ _ _ Hp Ht) as [fs [Hin Hv]].
+  destruct (batch_each_matches_some ct o e stripped gt ex merged rex Hb Htab Hcap Horc fs Hin) as [s [Hs Hm]].
+  unfold batch_renderable in Hren. apply andb_true_iff in Hren as [He Hren]. apply mem_str_In in He.
+  rewrite Hb in Hren. rewrite forallb_forall in Hren.
+  exists s. split; [exact Hs|].
+  eapply portable_text_matches; [exact He|apply Hren; exact Hin|exact Hv|exact Hm|apply Hasc; exact Hs].
 Qed.
